@@ -1,4 +1,5 @@
 import KafVerif.Props.C05
+import KafVerif.Model.StorageLogRegistry
 /-!
 C06 — Broker restart after any crash point loses no acknowledged record.
 
@@ -140,3 +141,268 @@ example : ∃ s c r, Reachable fixed ⟨0, 0⟩ s ∧ step fixed s .crash = some
     exact ⟨s, _, r, hreach, hc, hr', by intro hn; simp [hn] at h1, h2, by simp [h3]⟩
 
 end KafVerif.StorageLog
+
+/-! ## The partition-log registry: `getPartitionLog` opens a partition once per incarnation -/
+
+namespace KafVerif.StorageLogRegistry
+
+def isLeader : RPc → Bool
+  | .leader _ => true
+  | _ => false
+
+def pastRecheck : RPc → Bool
+  | .leader .next => true
+  | .leader (.restoring _) => true
+  | _ => false
+
+structure Inv (s : State) : Prop where
+  pubs : s.pubs = if s.reg.isSome then 1 else 0
+  lead : ∀ t, isLeader (s.pcs t) = true → s.flight = some t
+  past : ∀ t, pastRecheck (s.pcs t) = true → s.reg = none
+  got : ∀ t id, s.pcs t = .got id → s.reg = some id
+
+theorem inv_init (topic : Bool) : Inv (init topic) :=
+  ⟨by simp [init], fun t h => by simp [init, isLeader] at h, fun t h => by simp [init, pastRecheck] at h,
+   fun t id h => by simp [init] at h⟩
+
+/-- setting the pc of one thread to a non-leader pc that is consistent with the registry -/
+theorem inv_setPc {s : State} {t : Nat} {pc : RPc} (h : Inv s) (h1 : isLeader pc = false)
+    (h2 : ∀ id, pc = .got id → s.reg = some id) : Inv (setPc s t pc) := by
+  refine ⟨h.pubs, ?_, ?_, ?_⟩
+  · intro j hj; simp only [setPc] at hj
+    by_cases hjt : j = t
+    · simp [hjt, h1] at hj
+    · simp only [hjt, if_false] at hj; exact h.lead j hj
+  · intro j hj; simp only [setPc] at hj
+    by_cases hjt : j = t
+    · simp only [hjt, if_true] at hj
+      cases pc <;> simp [pastRecheck, isLeader] at hj h1
+    · simp only [hjt, if_false] at hj; exact h.past j hj
+  · intro j id hj; simp only [setPc] at hj
+    by_cases hjt : j = t
+    · simp only [hjt, if_true] at hj; exact h2 id hj
+    · simp only [hjt, if_false] at hj; exact h.got j id hj
+
+/-- the leader's call returns a non-leader result consistent with the registry -/
+theorem inv_finish {s : State} {t : Nat} {res : RPc} (h : Inv s) (hl : isLeader (s.pcs t) = true)
+    (h1 : isLeader res = false) (h2 : ∀ id, res = .got id → s.reg = some id) : Inv (finish s t res) := by
+  have huniq : ∀ j, isLeader (s.pcs j) = true → j = t := by
+    intro j hj
+    have a := h.lead j hj
+    have b := h.lead t hl
+    rw [a] at b; cases b; rfl
+  have hres : ∀ j, (finish s t res).pcs j = res ∨ ((finish s t res).pcs j = s.pcs j ∧ j ≠ t) := by
+    intro j; simp only [finish]
+    by_cases hjt : j = t
+    · simp [hjt]
+    · by_cases hw : s.pcs j = .waiter
+      · simp [hjt, hw]
+      · simp [hjt, hw]
+  refine ⟨h.pubs, ?_, ?_, ?_⟩
+  · intro j hj
+    rcases hres j with hr | ⟨hr, hne⟩
+    · rw [hr, h1] at hj; cases hj
+    · rw [hr] at hj; exact absurd (huniq j hj) hne
+  · intro j hj
+    rcases hres j with hr | ⟨hr, hne⟩
+    · rw [hr] at hj; cases res <;> simp [pastRecheck, isLeader] at hj h1
+    · rw [hr] at hj; exact h.past j hj
+  · intro j id hj
+    rcases hres j with hr | ⟨hr, _⟩
+    · rw [hr] at hj; exact h2 id hj
+    · rw [hr] at hj; exact h.got j id hj
+
+theorem inv_step {s s' : State} {e : Ev} (h : Inv s) (hs : step code s e = some s') : Inv s' := by
+  cases e with
+  | enter t =>
+    simp only [step] at hs
+    split at hs <;> simp at hs
+    subst hs
+    cases hr : s.reg with
+    | none => exact inv_setPc h (by simp [isLeader]) (fun id hh => by cases hh)
+    | some id => exact inv_setPc h (by simp [isLeader]) (fun id' hh => by cases hh; exact hr)
+  | doCall t =>
+    simp only [step] at hs
+    split at hs
+    case h_2 => simp at hs
+    case h_1 hpc =>
+      split at hs
+      · simp at hs; subst hs; exact inv_setPc h (by simp [isLeader]) (fun id hh => by cases hh)
+      · rename_i hfl
+        simp only [code, if_true, Option.some.injEq] at hs; subst hs
+        have hnone : ∀ j, isLeader (s.pcs j) = false := by
+          intro j
+          cases hj : isLeader (s.pcs j) with
+          | false => rfl
+          | true => have := h.lead j hj; rw [hfl] at this; cases this
+        refine ⟨h.pubs, ?_, ?_, ?_⟩
+        · intro j hj; simp only [setPc] at hj ⊢
+          by_cases hjt : j = t
+          · simp [hjt]
+          · simp only [hjt, if_false] at hj; rw [hnone j] at hj; cases hj
+        · intro j hj; simp only [setPc] at hj
+          by_cases hjt : j = t
+          · simp [hjt, pastRecheck] at hj
+          · simp only [hjt, if_false] at hj; exact h.past j hj
+        · intro j id hj; simp only [setPc] at hj
+          by_cases hjt : j = t
+          · simp [hjt] at hj
+          · simp only [hjt, if_false] at hj; exact h.got j id hj
+  | recheck t =>
+    simp only [step] at hs
+    split at hs
+    case h_2 => simp at hs
+    case h_1 hpc =>
+      have hl : isLeader (s.pcs t) = true := by rw [hpc]; rfl
+      cases hr : s.reg with
+      | some id =>
+        simp only [hr, Option.some.injEq] at hs; subst hs
+        exact inv_finish h hl (by simp [isLeader]) (fun id' hh => by cases hh; exact hr)
+      | none =>
+        simp only [hr, Option.some.injEq] at hs; subst hs
+        have hfl := h.lead t hl
+        refine ⟨h.pubs, ?_, ?_, ?_⟩
+        · intro j hj; simp only [setPc] at hj ⊢
+          by_cases hjt : j = t
+          · rw [hjt]; exact hfl
+          · simp only [hjt, if_false] at hj; exact h.lead j hj
+        · intro j _; exact hr
+        · intro j id hj; simp only [setPc] at hj
+          by_cases hjt : j = t
+          · simp [hjt] at hj
+          · simp only [hjt, if_false] at hj; exact h.got j id hj
+  | next t ok =>
+    simp only [step] at hs
+    split at hs
+    case h_2 => simp at hs
+    case h_1 hpc =>
+      have hl : isLeader (s.pcs t) = true := by rw [hpc]; rfl
+      have hreg : s.reg = none := h.past t (by rw [hpc]; rfl)
+      split at hs
+      · split at hs
+        · simp only [Option.some.injEq] at hs; subst hs
+          have hfl := h.lead t hl
+          refine ⟨h.pubs, ?_, ?_, ?_⟩
+          · intro j hj; simp only [setPc] at hj ⊢
+            by_cases hjt : j = t
+            · rw [hjt]; exact hfl
+            · simp only [hjt, if_false] at hj; exact h.lead j hj
+          · intro j _; exact hreg
+          · intro j id hj; simp only [setPc] at hj
+            by_cases hjt : j = t
+            · simp [hjt] at hj
+            · simp only [hjt, if_false] at hj; exact h.got j id hj
+        · simp only [Option.some.injEq] at hs; subst hs
+          exact inv_finish h hl (by simp [isLeader]) (fun id hh => by cases hh)
+      · simp only [Option.some.injEq] at hs; subst hs
+        exact inv_finish h hl (by simp [isLeader]) (fun id hh => by cases hh)
+  | publish t ok =>
+    simp only [step] at hs
+    split at hs
+    case h_2 => simp at hs
+    case h_1 id hpc =>
+      have hl : isLeader (s.pcs t) = true := by rw [hpc]; rfl
+      have hreg : s.reg = none := h.past t (by rw [hpc]; rfl)
+      split at hs
+      · simp only [Option.some.injEq] at hs; subst hs
+        -- nobody holds a log yet (the registry is empty), so every `got` after the step is the new id
+        have hnogot : ∀ j id', s.pcs j ≠ .got id' := by
+          intro j id' hj; have := h.got j id' hj; rw [hreg] at this; cases this
+        have hf := inv_finish (res := .got id) (t := t) h hl (by simp [isLeader])
+        refine ⟨?_, ?_, ?_, ?_⟩
+        · have := h.pubs; simp [hreg] at this; simp [this]
+        · intro j hj
+          have : isLeader ((finish s t (.got id)).pcs j) = true := hj
+          simp only [finish] at this
+          by_cases hjt : j = t
+          · simp [hjt, isLeader] at this
+          · by_cases hw : s.pcs j = .waiter
+            · simp [hjt, hw, isLeader] at this
+            · simp only [hjt, hw, if_false] at this
+              have a := h.lead j this; have b := h.lead t hl; rw [a] at b; cases b; exact absurd rfl hjt
+        · intro j hj
+          have : pastRecheck ((finish s t (.got id)).pcs j) = true := hj
+          simp only [finish] at this
+          by_cases hjt : j = t
+          · simp [hjt, pastRecheck] at this
+          · by_cases hw : s.pcs j = .waiter
+            · simp [hjt, hw, pastRecheck] at this
+            · simp only [hjt, hw, if_false] at this
+              have hlj : isLeader (s.pcs j) = true := by
+                cases hp : s.pcs j <;> simp [hp, pastRecheck] at this <;> simp [isLeader]
+              have a := h.lead j hlj; have b := h.lead t hl; rw [a] at b; cases b; exact absurd rfl hjt
+        · intro j id' hj
+          have : (finish s t (.got id)).pcs j = .got id' := hj
+          simp only [finish] at this
+          by_cases hjt : j = t
+          · simp [hjt] at this; simp [this]
+          · by_cases hw : s.pcs j = .waiter
+            · simp [hjt, hw] at this; simp [this]
+            · simp only [hjt, hw, if_false] at this; exact absurd this (hnogot j id')
+      · simp only [Option.some.injEq] at hs; subst hs
+        exact inv_finish h hl (by simp [isLeader]) (fun id hh => by cases hh)
+  | mk t ok =>
+    simp only [step] at hs
+    split at hs
+    case h_2 => simp at hs
+    case h_1 hpc =>
+      split at hs
+      · simp only [Option.some.injEq] at hs; subst hs
+        have h' := inv_setPc (s := s) (t := t) (pc := .missed) h (by simp [isLeader]) (fun id hh => by cases hh)
+        exact ⟨h'.pubs, h'.lead, h'.past, h'.got⟩
+      · simp only [Option.some.injEq] at hs; subst hs
+        exact inv_setPc h (by simp [isLeader]) (fun id hh => by cases hh)
+
+theorem reachable_inv {topic : Bool} {s : State} (h : Reachable code topic s) : Inv s := by
+  induction h with
+  | init => exact inv_init topic
+  | step e _ hs ih => exact inv_step ih hs
+
+/-- **C06 (one log per partition).** In every reachable state of `getPartitionLog` as coded (any
+number of concurrent first requests, any interleaving of fast path / singleflight / store calls /
+auto-create retries, any failures) the registry entry of the partition is written at most once per
+broker incarnation, and all goroutines that obtained a PartitionLog obtained the same one, which is
+the registered one. -/
+theorem _root_.KafVerif.C06.one_log_per_partition {topic : Bool} {s : State} (h : Reachable code topic s) :
+    s.pubs ≤ 1 ∧ (∀ t a, s.pcs t = .got a → s.reg = some a) ∧
+    (∀ t u a b, s.pcs t = .got a → s.pcs u = .got b → a = b) := by
+  have hi := reachable_inv h
+  refine ⟨?_, hi.got, ?_⟩
+  · have := hi.pubs; split at this <;> omega
+  · intro t u a b ha hb
+    have x := hi.got t a ha; have y := hi.got u b hb
+    rw [x] at y; cases y; rfl
+
+/-- two producers open a partition of a topic that does not exist yet (auto-create): both get
+ErrUnknownTopic; the second one creates the topic, opens the log and goes on; then the first one's
+CreateTopic returns and it calls Do again -/
+def autoCreateRace : List Ev :=
+  [.enter 0, .doCall 0, .next 0 true, .enter 1, .doCall 1, .next 1 true,
+   .mk 1 true, .doCall 1, .next 1 true, .publish 1 true,
+   .mk 0 true, .doCall 0, .next 0 true, .publish 0 true]
+
+def autoCreateRaceCode : List Ev :=
+  [.enter 0, .doCall 0, .recheck 0, .next 0 true, .enter 1, .doCall 1, .recheck 1, .next 1 true,
+   .mk 1 true, .doCall 1, .recheck 1, .next 1 true, .publish 1 true,
+   .mk 0 true, .doCall 0, .recheck 0]
+
+/-- **witness**: without the re-check inside the singleflight callback two PartitionLogs are
+created and handed out for one partition (the second overwrites the registry entry). -/
+theorem _root_.KafVerif.C06.no_recheck_two_logs :
+    ((run noRecheck (init false) autoCreateRace).map fun s => (s.pubs, s.pcs 0, s.pcs 1, s.reg))
+      = some (2, .got 1, .got 0, some 1) := by decide
+
+/-- also with an existing topic: a request that missed the fast path and reaches `Do` after the
+first call finished -/
+theorem _root_.KafVerif.C06.no_recheck_two_logs_late_do :
+    ((run noRecheck (init true) [.enter 0, .enter 1, .doCall 0, .next 0 true, .publish 0 true,
+        .doCall 1, .next 1 true, .publish 1 true]).map fun s => (s.pubs, s.pcs 0, s.pcs 1))
+      = some (2, .got 0, .got 1) := by decide
+
+/-- the code as it is, same race: the late caller finds the registered log in the re-check -/
+theorem _root_.KafVerif.C06.recheck_same_schedule :
+    ((run code (init false) autoCreateRaceCode).map fun s => (s.pubs, s.pcs 0, s.pcs 1, s.reg))
+      = some (1, .got 0, .got 0, some 0) := by decide
+
+end KafVerif.StorageLogRegistry
+
